@@ -19,7 +19,8 @@ EXPLANATION = ("The condition guarding the scheduler call in Simulator.run is pr
                "active_sessions(), Simulator.get_active_evs returns a deepcopy; SessionInfo(...) and InfrastructureInfo(...) are built "
                "with each argument bound to the like-named (synonym table) true attribute; the active set is `ev is not None and not "
                "fully_charged` with the 1e-3 kWh threshold; the previous-period accessors use column iteration-1 exactly, inclusive "
-               "arrival test, and only from the third period on; current_datetime = start + timedelta(minutes=period)*iteration.")
+               "arrival test, and only from the third period on; current_datetime = start + timedelta(minutes=period)*iteration."
+               ' Added in round 3: shallow copies (list / tuple / dict / copy / sorted) keep the aliasing of nested mutable elements in the escape analysis; the per-station accessors report the like-named field of the station asked about; SessionInfo / InfrastructureInfo store every parameter under its own name.')
 NOT_DECIDED = ("that the number of invocations over a concrete history matches; the contents observed; schedulers that reach simulator "
                "state through means other than the Interface")
 
